@@ -29,5 +29,9 @@ Record Inv5 (s : stream) : Prop := {
   (* an append that succeeded handed over at least one frame *)
   n_pend : match k_pc s with KMainAppended _ j => 1 <= j | KFlushAppended k => 1 <= k | _ => True end;
   (* as long as the sink is in its main loop, its flush or about to stop the storage, the storage is running *)
-  n_sto : sink_has_sto (k_pc s) = true -> sto_st s = HRunning
+  n_sto : sink_has_sto (k_pc s) = true -> sto_st s = HRunning;
+  (* writes are only ever refused together with a stop request to the source (abort sets both at once; the failing sink tells the
+     source to stop before it refuses writes): a source still in its loop does not spin on refused writes *)
+  n_acc : accepting s = false -> src_in_loop (s_pc s) = true -> src_stopping s = true;
+  n_erracc : match k_pc s with KErrAccept _ => true | _ => false end = true -> src_in_loop (s_pc s) = true -> src_stopping s = true
 }.
